@@ -241,12 +241,13 @@ func runRoundTrips(t *testing.T, r *ev.Rec, prefix string, codecs []codec, gobFo
 		for _, c := range codecs {
 			for _, st := range vocab.StructTypes {
 				// one every-field-set value per vocabulary type name of this Go type (the reader and writer tables switch on the name)
-				for _, tn := range vocab.NamesFor(st.Name()) {
+				for ti, tn := range vocab.NamesFor(st.Name()) {
+					// the names take turns through the admissible shapes of every field
 					id := c.name + " " + st.Name() + "[" + string(tn) + "]"
 					if !r.WantCell(id) {
 						continue
 					}
-					x := vocab.Everything(st, gobForm)
+					x := vocab.EverythingN(st, gobForm, ti%5)
 					sv, _ := vocab.StructOf(x)
 					sv.FieldByName("Type").SetString(string(tn))
 					ds, _ := roundTrip(c, x, prefix, st.Name()+".*")
